@@ -20,6 +20,7 @@ META = {
     "trusted_base": ["trackers do not raise on numeric input", "callbacks do not mutate the explainer themselves"],
     "assumptions": ["exceptions originate in the four callback roles; interpreter errors (MemoryError...) excluded"],
 }
+META["explanation"] += ' Also: __exit__ methods that can return a true value, user callbacks driven by map / filter / itertools, DEP-C05 acc-init.'
 MIN_INSTANCES = {"ORDER": 6}
 
 ENTRY = ("explain_one", "explain_many", "explain_many_original")
